@@ -51,7 +51,7 @@ func init() {
 		Assumptions: []string{
 			"block hash = Blake2b-256 of the header bytes as served (Byron: of the two-element list [subtype, header])",
 			"node-to-node era of a Shelley-or-later block type T is T-1 (network spec), Byron blocks use era 0 with [subtype, size]",
-			"the chain-sync server refuses Byron blocks over node-to-node (no entry in ledger.BlockToBlockHeaderTypeMap); a refusal is not a wrong delivery and is only counted",
+			"the chain-sync server refuses Byron blocks over node-to-node (no entry in ledger.BlockToBlockHeaderTypeMap); Byron over node-to-node is outside the statement, so that refusal is only counted; refusing any other block that ledger.NewBlockFromCbor accepts (constructor error, Server.RollForward error) is a violation",
 			"an end-to-end connection that does not finish within the 120 s watchdog is inconclusive",
 		},
 		QuickTimeout:    600,
@@ -168,6 +168,14 @@ func witness(v *variant, mode string) map[string]any {
 	return w
 }
 
+func eraName(blockType uint) string {
+	names := []string{"byron-ebb", "byron", "shelley", "allegra", "mary", "alonzo", "babbage", "conway", "dijkstra"}
+	if int(blockType) < len(names) {
+		return names[blockType]
+	}
+	return fmt.Sprintf("type%d", blockType)
+}
+
 func tipFor(i int) rig.Tip {
 	return rig.Tip{Point: rig.Point{Slot: uint64(1000 + i), Hash: bytes.Repeat([]byte{byte(i)}, 32)}, BlockNo: uint64(77 + i)}
 }
@@ -189,7 +197,10 @@ func checkMsgNtC(c *core.Ctx, v *variant, i int) {
 	m, err := chainsync.NewMsgRollForwardNtC(b.Type, b.Cbor, libTip(tip))
 	c.Eval()
 	if err != nil {
+		// the block decodes (ledger.NewBlockFromCbor accepted it): refusing to wrap it is not a delivery
 		c.Count("msg_ntc_constructor_refused", 1)
+		w["error"] = err.Error()
+		viol("refused:"+eraName(b.Type), fmt.Sprintf("NewMsgRollForwardNtC refuses a block that the ledger decoder accepts: %v", err))
 		return
 	}
 	enc, err := gcbor.Encode(m)
@@ -298,7 +309,13 @@ func checkMsgNtN(c *core.Ctx, v *variant, i int) {
 	}
 	m, err := chainsync.NewMsgRollForwardNtN(era, sub, b.Cbor, libTip(tip))
 	if err != nil {
+		if b.Byron { // Byron over node-to-node is outside the statement: counted only
+			c.Count("msg_ntn_byron_constructor_refused", 1)
+			return
+		}
 		c.Count("msg_ntn_constructor_refused", 1)
+		w["error"] = err.Error()
+		viol("refused:"+eraName(b.Type), fmt.Sprintf("NewMsgRollForwardNtN refuses a %s block that the ledger decoder accepts: %v", eraName(b.Type), err))
 		return
 	}
 	enc, err := gcbor.Encode(m)
@@ -650,6 +667,10 @@ wait:
 			continue
 		}
 		c.Count("e2e_"+mode+"_refused_by_server", 1)
+		w := witness(v, mode)
+		w["error"] = why
+		c.Violation("C22:e2e:"+mode+":refused:"+eraName(v.Blk.Type), fmt.Sprintf("%s (%s): chainsync.Server.RollForward refuses a %s block that the ledger decoder accepts: %s",
+			v.Base, v.Policy, eraName(v.Blk.Type), why), w)
 	}
 	if len(arrivals) < len(sent) {
 		c.Eval()
